@@ -345,6 +345,7 @@ int main(int argc, char** argv)
     "PowerRow<2> 2x2 (256), PowerRow<3> 2x1,1x2 (64 each), PowerCol likewise, SaddlePoint<CSR,CSR,CSR> (256), SaddlePoint<PowerDiag,PowerCol,PowerRow> (1024); (double,u64): 9 variants, (float,u32): the 4 alphabets; 9 scalars";
   spec.bounds_thorough = "same as quick (the space is completed in the quick tier)";
   spec.assumptions = {
+    "coverage audit: out of scope of C01: two-argument clone/convert of composed matrices, get_length_of_line/set_line (scalar conversion, C02), bytes()/name(), file I/O and checkpoints (C05)", 
     "leaves are SparseMatrixCSR (the leaf kernels of all formats are covered by c01_apply_csr / c01_apply_blk)",
     "oracle: dense long double product of the whole matrix; exact alphabet compared with ==; rounding alphabet: 8(len+2) eps (|A||x| max(1,|alpha|)+|y|)",
     "vectors come from create_vector_l/r of the composed matrix (their flat length is checked against the oracle dimensions)",
